@@ -103,7 +103,7 @@ def run(ctx):
     rng = ctx.rng
     ctx.rule("variable lists: every kind sequence of length 1..2 over the seven kinds (exhaustive), random sequences of length 3..4, "
              "parameters sampled (sizes 1..3 incl. size-1 multi-variables, lone permutations); tasks derived from an already used task by model_copy(update=variables) / copy-then-assign; positions of matching dimension built from per-variable "
-             "candidates (in/out of range, boundaries, ±inf); ops dim/get_bounds/correct_solution/initial_solution/transform_solution; "
+             "candidates (in/out of range, boundaries, ±inf; a third of them all-integer lists / int ndarrays); ops dim/get_bounds/correct_solution/initial_solution/transform_solution; "
              "non-trivial = every case (distinct by declaration list, op and position)")
     seqs = [list(s) for L in (1, 2) for s in itertools.product(gen.KINDS, repeat=L)]
     n_rand = 150 if not ctx.thorough else 3000
@@ -169,8 +169,15 @@ def run(ctx):
                 elif not le:
                     ctx.fail("C14/Task.get_bounds/lower-above-upper", f"{b!r}", SUITE, meta0)
             # ---- correct_solution / transform_solution on positions of matching dimension
-            for _ in range(2):
+            for rnd in range(3):
                 xs = [rand_raw(rng, f) for f in flats]
+                if rnd == 2:
+                    # a hand-written warm start: every coordinate a Python int (or, every other time, an int ndarray): same values as the floats, other dtype
+                    if any(isinstance(x, list) or not math.isfinite(x) for x in xs):
+                        continue
+                    xs = [int(round(x)) + rng.choice([-7, 0, 0, 9]) for x in xs]
+                    if rng.random() < 0.5:
+                        xs = np.array(xs)
                 meta = {**meta0, "x": repr(xs)}
                 okc, y = call(task.correct_solution, xs)
                 C.add({"op": "task.correct", "task": tj, "x": [raw_json(x) for x in xs]}, [rcoord(c) for c in y] if okc else rerr(y), {**meta, "op": "correct"})
